@@ -37,6 +37,7 @@ type Obligation struct {
 	Goal     *Term
 	Index    int    // position in VC items
 	ExpectSat bool   // cover query: goal is asserted positively, sat expected
+	Retried   bool   // ran out of time once and was solved again with a larger budget
 	Pos      string // source position (informational)
 	Note     string
 	cached   string
@@ -97,6 +98,7 @@ func NewVC(fn string) *VC {
 	objBound = map[string]int{}
 	allocEpoch = map[string]int{}
 	memEpoch = map[string]int{}
+	memAllocOf = map[string]*Term{}
 	curEpoch = 0
 	return vc
 }
